@@ -36,7 +36,7 @@ func runC06(r *Run) {
 	r.Rule("R3", "PATH.assert-in-every-decorator: in each eth-route decorator that calls GetMsgs, a comma-ok assertion to *MsgEthereumTx exists and next is unreachable from its failing edge")
 	r.Rule("R4", "PATH.reject: in RejectMessagesDecorator next is unreachable from the edge on which the assertion to *MsgEthereumTx succeeds, the assertion exists, it sits in a loop over the messages and its failing edge continues the scan (every message is examined)")
 	r.Rule("R5", "TABLE.wrapper-exhaustiveness: every sdk.Msg type in the app's import closure with a []*Any field (nested messages) is a case of checkDisabledMsgs' type switch or in the reasoned allow-list; the MsgExec case recurses with isAuthzInnerMsg=true and an incremented level; the level cap precedes the scan; disabled types are rejected in the MsgGrant and default cases; AnteHandle calls the scan before next")
-	r.Rule("R8", "TABLE.dispatchers-off-the-ante-route: the constructors that app.New hands the message service router to are exactly the tabled ones (authz keeper, configurator: bound to transactions; governance keeper, interchain-accounts host keeper: run message trees with no ante handler); while one of the latter is wired, both limiters list MsgTypeURL(&authz.MsgExec{}) so that exec-on-behalf cannot be delegated to a dispatcher's account")
+	r.Rule("R8", "TABLE.dispatchers-off-the-ante-route: the constructors that app.New hands the message service router to are exactly the tabled ones (authz keeper, configurator: bound to transactions; governance keeper, interchain-accounts host keeper: run message trees with no ante handler); while one of the latter is wired, both limiters list MsgTypeURL(&authz.MsgExec{}) and MsgTypeURL(&authz.MsgGrant{}) so that neither exec-on-behalf nor grant-on-behalf can be delegated to a dispatcher's account")
 	r.Rule("R6", "TABLE.installed: setAnteHandler passes ante.NewAnteHandler(options) (wrapped by NewHaqqAnteHandlerDecorator, which calls the wrapped handler on every success path) to SetAnteHandler")
 
 	chains := anteChains(r)
@@ -179,6 +179,7 @@ func runC06(r *Run) {
 			// R8: dispatchers that are handed the message router run message trees without the ante handler; as long
 			// as one of them is wired, "exec on my behalf" must not be grantable
 			if len(disp) > 0 && resolved {
+				r.Check(always["MsgGrant"], "R8", antePkg+"."+cn+"#grant-is-not-grantable", where, "the limiter bars grants of MsgGrant", "the limiter of "+cn+" does not list MsgTypeURL(&authz.MsgGrant{}) while "+strings.Join(disp, ", ")+" dispatch message trees without the ante handler: V grants an interchain account I GenericAuthorization(MsgGrant); I sends MsgExec{I,[MsgGrant{V→I, Generic(MsgEthereumTx)}]} — the barred grant is stored without ever meeting the limiter — and then MsgExec{I,[MsgEthereumTx signed by V]}: executed with a stale nonce, no fee, and a gas refund of 1e18 out of the fee collector")
 				r.Check(always["MsgExec"], "R8", antePkg+"."+cn+"#exec-is-not-grantable", where, "the limiter bars grants of MsgExec", "the limiter of "+cn+" does not list MsgTypeURL(&authz.MsgExec{}) while "+strings.Join(disp, ", ")+" dispatch message trees through the message router without the ante handler: an account grants such a dispatcher's account GenericAuthorization(MsgExec); the dispatcher then runs MsgExec{dispatcher, [MsgExec{granter, [MsgEthereumTx signed by granter]}]} — authz accepts the innermost message implicitly (granter == grantee) and the Ethereum message executes with no fee deducted, no nonce rule, and a gas refund paid out of the fee collector")
 			}
 		} else {
